@@ -50,6 +50,7 @@ var Corpus = []Op{
 	{Name: "scalar-lists", Query: `{ me { blobs blobsReq } users { blobs } }`},
 	{Name: "scalar-lists-nonnull-parent", Query: `{ me { boss { blobsReq } best { blobsReq blobs } } }`},
 	{Name: "method-backed", Query: `{ me { gauge { low high note } } users { gauge { id low high } } }`},
+	{Name: "shared-input-variable", Query: `query($f: Filter){ a: search(f:$f) { __typename } b: search(f:$f) { __typename } c: search(f:$f) { __typename } }`, Vars: map[string]any{"f": map[string]any{"limit": 1}}},
 	{Name: "context-marshaler", Query: `{ me { cx best { cx } } users { cx id } }`},
 	{Name: "eager-marshal-lists", Query: `{ me { tone tones tonesReq tag tags } users { tonesReq tagsReq } }`},
 	{Name: "op-directive-pass", Query: `query @opguard(mode:"pass") { hello me { id } }`},
